@@ -7,7 +7,7 @@ VERIF = os.path.dirname(os.path.dirname(os.path.abspath(__file__)))
 CHECKS = {
     "C01": dict(
         technique="TLA+ two-layer spec (Draft6 reference + parser/element model), TLC BFS+simulate over schema documents x value universe, every state replayed on the real parser/validator, drift adjudicated by TLC trace validation",
-        text="TLC enumerates every schema document within the bound (all pairs of keyword atoms at every position, seeds with 3-4 interacting keywords, random deep documents by -simulate) and evaluates the Draft-6 reference verdict set for each of 50 boundary values; each state is replayed on the real code and the real verdict must lie in the reference set. Exhaustive within the stated bounds, sampled beyond.",
+        text="TLC enumerates every schema document within the bound (all pairs of keyword atoms at every position, seeds with 3-4 interacting keywords, random deep documents by -simulate) and evaluates the Draft-6 reference verdict set for each of 51 boundary values; each state is replayed on the real code and the real verdict must lie in the reference set. Exhaustive within the stated bounds, sampled beyond.",
         note="Trusted: Draft6.tla as the meaning of Draft 6 with the three documented deviations (cross-checked against the independently written implementation model on every state); regex family A3; binary-exact numbers A4.",
         ref="5/C01"),
     "C04": dict(
@@ -37,7 +37,7 @@ CHECKS = {
         ref="5/C02"),
     "C03": dict(
         technique="every exported document state parsed, serialized with the real serialize_json, and the document adjudicated by TLC (Meta.tla metaschema, reference resolution, Draft6.tla verdict sets against the element's observed verdicts on the value universe); Serializers.tla / MC_Ser: the same clause checked by TLC on the model's serialize_json, real output compared with the predicted document",
-        text="serialize_json output of every element tree of the document family is checked by TLC to be a well-formed Draft-6 schema with resolvable acyclic references that gives, for each of 50 values, the verdict the element itself gave.",
+        text="serialize_json output of every element tree of the document family is checked by TLC to be a well-formed Draft-6 schema with resolvable acyclic references that gives, for each of 51 values, the verdict the element itself gave.",
         note="Element trees are the parser's image plus DSL rebuilds; DSL-only shapes (explicit required next to properties, renamed properties) are reached through parsed documents with the same shape.",
         ref="5/C03"),
     "C06": dict(
